@@ -67,7 +67,16 @@ func C13(c *run.Ctx) int {
 	c.Each(n, func(i int) (string, run.Outcome) {
 		seed := run.CaseSeed(c.Seed, "exec", i)
 		id := fmt.Sprintf("prog-%d", i)
-		prog := cases.Generate(seed, c13Cfg())
+		cfg := c13Cfg()
+		if i%2 == 1 {
+			// plain helpers: no var locals, no loops, no early returns, scalar parameters only - none of the listed
+			// inliner defects (F52, F54, F101) applies, so every inliner mismatch on these programs is reported
+			for _, g := range []string{"helper.locals", "helper.loops", "helper.aggregate-params", "early-return"} {
+				cfg.Off[g] = true
+			}
+			cfg.Helpers = 3
+		}
+		prog := cases.Generate(seed, cfg)
 		o := c13Eval(c, id, prog, seed, nIn, "")
 		if o.V == run.Violated && c.TakeReduceSlotFor(o.Class) {
 			class := o.Class
